@@ -95,7 +95,7 @@ Fixpoint cur_ops (cur : repl) (os : list op1) : repl * bool :=
         | ORepl r => (r, repl_raises cur r)
         | OShuffle | OGroupBySum | OGroupByCount | OGroupByMax | OGroupByMin | OGroupByFoldSum
         | OGroupByThenFoldSum | OGroupByReduceMax | ONested _ _ _ | ONestedO _ _ _
-        | OJoinSide _ _ _ => (RpUnlimited, false)
+        | OJoinSide _ _ _ | OJoinSideL _ _ _ => (RpUnlimited, false)
         | OFoldSum | OFoldAssocSum | OReduceMax | OReduceAssocMax => (RpOne, false)
         | _ => (cur, false)
         end in
@@ -193,9 +193,10 @@ Example has_outer_read_ex3 : (* not inside a replay / iterate body *)
   has_outer_read (POp (PSrc true []) (ONestedO 3 10 [OAddState])) = false.
 Proof. reflexivity. Qed.
 
-(** ---- joins with a constant side input ([OJoinSide]) ---- *)
+(** ---- joins with a constant side input ([OJoinSide]: on the right, [OJoinSideL]: on the
+    left) ---- *)
 
-(** [OJoinSide] never reads the loop state (its side input is constant), in particular not an
+(** [OJoinSide] / [OJoinSideL] never read the loop state (its side input is constant), in particular not an
     enclosing loop's; like the group-by ops it is preceded by an exchange by key, so the
     stream has unlimited replication after it and no forward connection is raised *)
 Lemma op_reads_state_join_side v lo side : op_reads_state (OJoinSide v lo side) = false.
@@ -206,10 +207,18 @@ Lemma cur_ops_join_side cur v lo side os :
   cur_ops cur (OJoinSide v lo side :: os) = cur_ops RpUnlimited os.
 Proof. cbn [cur_ops]. destruct (cur_ops RpUnlimited os). reflexivity. Qed.
 
-(** the op is, or contains at any depth, a join with a side input *)
+Lemma op_reads_state_join_side_l v lo side : op_reads_state (OJoinSideL v lo side) = false.
+Proof. reflexivity. Qed.
+Lemma op_outer_read_join_side_l v lo side : op_outer_read (OJoinSideL v lo side) = false.
+Proof. reflexivity. Qed.
+Lemma cur_ops_join_side_l cur v lo side os :
+  cur_ops cur (OJoinSideL v lo side :: os) = cur_ops RpUnlimited os.
+Proof. cbn [cur_ops]. destruct (cur_ops RpUnlimited os). reflexivity. Qed.
+
+(** the op is, or contains at any depth, a join with a side input (on either side) *)
 Fixpoint op_join_side (o : op1) : bool :=
   match o with
-  | OJoinSide _ _ _ => true
+  | OJoinSide _ _ _ | OJoinSideL _ _ _ => true
   | ONested _ _ b | ONestedO _ _ b =>
       (fix go (os : list op1) : bool :=
          match os with [] => false | o' :: os' => op_join_side o' || go os' end) b
@@ -235,6 +244,19 @@ Proof. reflexivity. Qed.
 Example has_loop_join_side_ex :
   has_loop_join_side (PReplay (PSrc true []) 2 10 [OAddState; ONested 2 10 [OJoinSide JvInner LoHash [(1, 10)]]]) = true.
 Proof. reflexivity. Qed.
+Example cur_ops_join_side_l_ex :
+  cur_ops RpOne [OJoinSideL JvLeft LoHash [(1, 10)]; ORepl (RpLimited 2)] = (RpLimited 2, false).
+Proof. reflexivity. Qed.
+Example reads_state_join_side_l_ex :
+  reads_state [OJoinSideL JvInner LoHash [(1, 10)]; ONestedO 2 10 [OJoinSideL JvLeft LoSortMerge []]] = false.
+Proof. reflexivity. Qed.
+Example has_loop_join_side_l_ex :
+  has_loop_join_side (PIterate (PSrc true []) 2 10 [ONestedO 2 10 [OJoinSideL JvOuter LoSortMerge [(1, 10)]]] true) = true.
+Proof. reflexivity. Qed.
+Example join_side_l_run_ok :
+  prop_ok {| c_pipe := PReplay (PSrc true [(1,5);(3,7)]) 2 1000000 [OAddState; OJoinSideL JvLeft LoHash [(1,10);(2,20)]];
+             c_runs := [ODone [(0, 96882)]; ODoneR [(0, 96882)]] |} = true.
+Proof. vm_compute. reflexivity. Qed.
 Example join_side_run_ok :
   prop_ok {| c_pipe := PReplay (PSrc true [(1,5);(3,7)]) 2 1000000 [OAddState; OJoinSide JvInner LoHash [(1,10)]];
              c_runs := [ODone [(0, 131697)]; ODoneR [(0, 131697)]] |} = true.
